@@ -189,19 +189,21 @@ def scanToken (o : VOpts) (st : TState) (u : Bytes) (es : List Event) : SRes :=
       | [] => .res (.err w .bug) w u1 es1 f1
       | c :: _ =>
         if c == 0x3A || c == 0x2C then
-          match sWhitespace u1 (w + 1) es1 with
-          | .fault u2 es2 =>
-            if st.m.needDelim 0x22 != c then .res (.err w .invalidChar) w u2 es2 true else .fault u2 es2
-          | .done (p, found2) u2 es2 f2 =>
+          -- `pos += 1`, then blanks from there on (the scanner sees `d.buf[pos:]`)
+          match sWhitespace (u1.drop (w + 1)) 0 es1 with
+          | .fault v2 es2 =>
+            if st.m.needDelim 0x22 != c then .res (.err w .invalidChar) w (u1.take (w + 1) ++ v2) es2 true
+            else .fault (u1.take (w + 1) ++ v2) es2
+          | .done (p, found2) v2 es2 f2 =>
             if !found2 then
-              if st.m.needDelim 0x22 != c then .res (.err w .invalidChar) w u2 es2 (f1 || f2)
-              else .res (.err p .eof) p u2 es2 (f1 || f2)
+              if st.m.needDelim 0x22 != c then .res (.err w .invalidChar) w (u1.take (w + 1) ++ v2) es2 (f1 || f2)
+              else .res (.err (w + 1 + p) .eof) (w + 1 + p) (u1.take (w + 1) ++ v2) es2 (f1 || f2)
             else
-              match u2.drop p with
-              | [] => .res (.err p .bug) p u2 es2 (f1 || f2)
+              match v2.drop p with
+              | [] => .res (.err (w + 1 + p) .bug) (w + 1 + p) (u1.take (w + 1) ++ v2) es2 (f1 || f2)
               | c1 :: _ =>
-                if st.m.needDelim (normKind c1) != c then .res (.err w .invalidChar) w u2 es2 (f1 || f2)
-                else lexS o st u2 p es2 (f1 || f2)
+                if st.m.needDelim (normKind c1) != c then .res (.err w .invalidChar) w (u1.take (w + 1) ++ v2) es2 (f1 || f2)
+                else lexS o st (u1.take (w + 1) ++ v2) (w + 1 + p) es2 (f1 || f2)
         else
           if st.m.needDelim (normKind c) != 0 then .res (.err w .invalidChar) w u1 es1 f1
           else lexS o st u1 w es1 f1
@@ -226,7 +228,7 @@ inductive Out where
 
 /-- all `fetch`es of one call at once (`Window.fetch (fetch w j) k = fetch w (j + k)`): `k` bytes were delivered -/
 def commitFetch (w : Window) (fetched : Bool) (k : Nat) : Window :=
-  if fetched then Window.fetch w k else w
+  if fetched || k != 0 then Window.fetch w k else w
 
 def kindAt (u : Bytes) (pos : Nat) : UInt8 :=
   match u.drop pos with
